@@ -243,9 +243,18 @@ Definition mandatory_post_gen (fx fq eq udp : bool) (rq : request) (hint : optio
 
 (* the whole UDP response path for one service response:
    Edns preprocess (hint) ... service ... Edns postprocess, Mandatory postprocess *)
+(* the hand-over between the two middleware layers: MandatoryMiddlewareSvc passes a
+   clone of the request inwards and keeps the original for postprocess; the hint
+   lives in an Arc<Mutex<..>> shared by the clones, so the value EdnsMiddlewareSvc
+   stores is the one truncate reads.  Were the cell copied with the request,
+   truncate would still see the configured value. *)
+Definition handed_over (shared : bool) (negotiated cfg : option N) : option N :=
+  if shared then negotiated else cfg.
+
 Definition udp_response_gen (fx fq eq : bool) (rq : request) (cfg : option N) (svc_resp : msg) : outcome msg :=
   do h <- hint_after_edns (rq_client rq) cfg;
-  Ok (mandatory_post_gen fx fq eq true rq h (edns_post (is_some (rq_client rq)) svc_resp)).
+  Ok (mandatory_post_gen fx fq eq true rq (handed_over hint_shared_between_clones h cfg)
+        (edns_post (is_some (rq_client rq)) svc_resp)).
 Definition udp_response := udp_response_gen trunc_no_opt_is_min trunc_questions_limited err_resp_first_question_only.
 
 (* ---- the datagram server as a whole: which path answers a request --------- *)
@@ -284,7 +293,8 @@ Definition udp_server_gen (fx fq eq : bool) (x : xreq) (cfg : option N) (svc : s
     let edns_err rc := Ok (Some (post cfg (edns_post has_opt (error_response_gen eq rq rc)))) in
     let serve :=
       match svc with
-      | SvcOk m => do h <- hint_after_edns (x_client x) cfg; Ok (Some (post h (edns_post has_opt m)))
+      | SvcOk m => do h <- hint_after_edns (x_client x) cfg;
+                   Ok (Some (post (handed_over hint_shared_between_clones h cfg) (edns_post has_opt m)))
       | SvcErr rc => Ok (Some (error_response_gen eq rq rc))
       | SvcNone => Ok None
       end in
@@ -594,6 +604,24 @@ Fixpoint served_connections (max : N) (num : N) (k : nat) : list bool :=
             else true :: served_connections max (num + 1) k'
   end.
 
+(* ---- stream.rs run_until_error: the accept loop -------------------------------- *)
+
+Inductive accept_event :=
+| AcConn                 (* poll_accept yields a connection *)
+| AcError (kind : N)     (* poll_accept yields an error (ECONNABORTED, EMFILE, ...): logged *)
+| AcStreamFails.         (* accepted, but the stream's own future fails: only its task ends *)
+
+(* which attempts are served; [stops]: whether an accept error ends the loop
+   (T1: accept_error_stops_server = false) *)
+Fixpoint accept_loop_gen (stops : bool) (evs : list accept_event) : list bool :=
+  match evs with
+  | [] => []
+  | AcConn :: t => true :: accept_loop_gen stops t
+  | AcStreamFails :: t => false :: accept_loop_gen stops t
+  | AcError _ :: t => false :: (if stops then map (fun _ => false) t else accept_loop_gen stops t)
+  end.
+Definition accept_loop := accept_loop_gen accept_error_stops_server.
+
 (* ---- cookies.rs preprocess: the two answers the middleware makes itself without
    looking at the request's question (the others start from start_answer) ------- *)
 Inductive cookie_reject :=
@@ -614,7 +642,7 @@ Definition cookie_own_answer_gen (echo eq : bool) (rq : request) (k : cookie_rej
 Definition cookie_reject_response_gen (fx fq eq echo : bool) (rq : request) (cfg : option N) (k : cookie_reject)
   : outcome msg :=
   do h <- hint_after_edns (rq_client rq) cfg;
-  Ok (mandatory_post_gen fx fq eq true rq h
+  Ok (mandatory_post_gen fx fq eq true rq (handed_over hint_shared_between_clones h cfg)
         (edns_post (is_some (rq_client rq)) (cookie_own_answer_gen echo eq rq k))).
 Definition cookie_reject_response :=
   cookie_reject_response_gen trunc_no_opt_is_min trunc_questions_limited err_resp_first_question_only
@@ -687,6 +715,8 @@ Definition c16_pad (d : bytes) (cfg : option N) :=
       Ok (match r with Some m => Some (observe2 m) | None => None end)
   end.
 
+Definition c16_accept (evs : list (option (option N))) : list bool :=
+  accept_loop (map (fun e => match e with None => AcConn | Some None => AcStreamFails | Some (Some k) => AcError k end) evs).
 Definition c16_idle (timeout wait : N) : bool := idle_open 0 timeout wait.
 Definition c16_limit (max : N) (k : N) : list bool := served_connections max 0 (N.to_nat k).
 
